@@ -204,6 +204,26 @@ def gen_case(cseed: int, tier: str) -> dict[str, Any]:
             recs = recs[:k] + [top_rec] + recs[k:]
     slots = [s for s in progen.iter_slots(prog) if s["assembled"] and not (s["file"] == "main.s" and not s["path"] and s["pos"] == 0)]
     slot = w.choice(slots)
+    if low_first is None and edge is None and w.random() < 0.08:
+        # a record that lands exactly where the host's output has got to when the directive is met (the end of
+        # the block being built), with more host output after the directive: the host's bytes must stay where
+        # they belong (who wins on the shared addresses is not judged)
+        k0, m0 = w.choice([1, 2, 4, 7]), w.choice([1, 2, 5])
+        bank = w.choice([0x01, 0x02, 0x05])
+        prog = progen.gen_program(random.Random(1), "low", {"data"}, [], size=1)
+        prog.root = [
+            {"k": "stareq", "t": f"*=0x{bank:02x}8000", "keep": True},
+            {"k": "stmt", "t": ".db " + ", ".join(str(w.randrange(256)) for _ in range(k0))},
+            {"k": "stmt", "t": ".db " + ", ".join(str(w.randrange(256)) for _ in range(m0))},
+            {"k": "stmt", "t": "rts"},
+        ]
+        prog.global_labels, prog.local_labels, prog.label_sites, prog.table_addr, prog.mapping = [], [], [], None, "low"
+        here = bank * 0x8000 + k0
+        n1 = w.choice([1, 2, 3, 8])
+        off1 = here - delta
+        if 0 <= off1 < (1 << 24) - 16 and off1 != ipsref.EOF_OFFSET:
+            recs = [(off1, "plain", n1, w.getrandbits(32))] + ([(off1 + n1, "plain", 2, w.getrandbits(32))] if w.random() < 0.5 else []) + recs[:2]
+        slot = {"file": "main.s", "path": [], "pos": 2, "assembled": True, "ctx": "top", "last": False}
     dform = w.choice(["lit", "lit", "const", "const_reassigned", "const_signed", "macro_arg", "macro_arg", "define", "expr"])
     return {
         "type": "base",
@@ -547,7 +567,23 @@ def run_single(case: dict[str, Any], stats: Stats) -> list[Violation]:
             stats.bump("probe:record_outside_image_others_judged")
         want = expected_image(records)
         if want is None:
+            # a record lands on addresses the host program writes as well: which of the two wins is a matter
+            # of write order and gets no verdict - but everything *outside* the records' target ranges must
+            # still be exactly what the host produces on its own
             stats.bump("no_verdict(damaged offsets overlap host output)")
+            if o["ok"]:
+                got_rest = observed_image(o["blocks"])
+                host_rest = ipsref.image_of_blocks(base_twin["blocks"])
+                for rec in records:
+                    n_rec = len(ipsref.record_bytes(rec))
+                    for d in all_deltas:
+                        t = rec[0] + d
+                        if n_rec and t >= 0 and t + n_rec <= TOP:
+                            got_rest.write(t, bytes(n_rec))
+                            host_rest.write(t, bytes(n_rec))
+                stats.bump("probe:record_overlaps_host_output_rest_compared")
+                if got_rest != host_rest:
+                    out.append(Violation("host_output_disturbed", "outside_record_ranges", f"a record lands where the host program writes too; outside the records' target ranges the output (first) differs from the host program alone (second): {'; '.join(got_rest.diff(host_rest))}", case, detail))
             return out
         if not o["ok"]:
             sig = (o.get("exc") or {}).get("type") or "error_returned"
